@@ -12,6 +12,12 @@
 #include <sys/stat.h>
 #include <thread>
 #include <zlib.h>
+#if __has_include(<lzma.h>)
+#include <lzma.h>
+#define C19_HAVE_LZMA 1
+#else
+#define C19_HAVE_LZMA 0
+#endif
 #include "httpgen.hpp"
 #include "rcx.hpp"
 #include "vcommon.hpp"
@@ -28,15 +34,52 @@ static std::string zpack(const std::string &in, int wbits) {
     std::string out(deflateBound(&z, in.size()) + 64, '\0'); z.next_in = (Bytef *)in.data(); z.avail_in = (uInt)in.size(); z.next_out = (Bytef *)&out[0]; z.avail_out = (uInt)out.size();
     deflate(&z, Z_FINISH); out.resize(z.total_out); deflateEnd(&z); return out;
 }
-static void add_stream(Conn &c, const std::string &w, char kind) { int n = rcx::range(0, 4); std::vector<size_t> cuts; for (int i = 0; i < n && w.size() > 1; i++) cuts.push_back((size_t)rcx::range(1, (int)w.size() - 1)); std::sort(cuts.begin(), cuts.end()); for (auto &p : vdrv::cut_at(w, cuts)) if (!p.empty()) c.ops.push_back(vdrv::Op{kind, p, 0}); }
+// LZMA-alone with properties that differ between connections (lc/lp/pb and dictionary size are in the 13 header bytes)
+static std::string lzpack(const std::string &in, int variant) {
+#if C19_HAVE_LZMA
+    lzma_options_lzma opt; if (lzma_lzma_preset(&opt, 1)) return ""; opt.dict_size = 4096u << (variant % 4); opt.lc = (uint32_t)(variant % 4); opt.lp = (uint32_t)((variant / 4) % 2); opt.pb = (uint32_t)((variant / 2) % 3);
+    lzma_stream s = LZMA_STREAM_INIT; if (lzma_alone_encoder(&s, &opt) != LZMA_OK) return "";
+    std::string out(in.size() + in.size() / 3 + 4096, '\0'); s.next_in = (const uint8_t *)in.data(); s.avail_in = in.size(); s.next_out = (uint8_t *)&out[0]; s.avail_out = out.size();
+    lzma_ret rc = lzma_code(&s, LZMA_FINISH); out.resize(rc == LZMA_STREAM_END ? s.total_out : 0); lzma_end(&s); return out;
+#else
+    (void)in; (void)variant; return "";
+#endif
+}
+// cut styles: 0 a few random cuts; 1 after every line end (state parked between calls: pending folded header, chunk-length
+// line, multipart boundary line); 2 random cuts plus one inside the first 13 bytes behind the header block (gzip / LZMA
+// header split); 3 small fixed-size pieces
+static void add_stream(Conn &c, const std::string &w, char kind) {
+    std::vector<size_t> cuts; int style = rcx::range(0, 3);
+    if (style == 1) { for (size_t i = 0; i + 1 < w.size() && cuts.size() < 40; i++) if (w[i] == '\n') cuts.push_back(i + 1); }
+    else if (style == 3 && w.size() <= 1500) { size_t step = (size_t)rcx::range(3, 64); for (size_t i = step; i < w.size(); i += step) cuts.push_back(i); }
+    else { int n = rcx::range(0, 4); for (int i = 0; i < n && w.size() > 1; i++) cuts.push_back((size_t)rcx::range(1, (int)w.size() - 1));
+        if (style == 2) { size_t h = w.find("\r\n\r\n"); if (h != std::string::npos && h + 4 + 1 < w.size()) { size_t room = std::min<size_t>(13, w.size() - (h + 4) - 1); if (room >= 1) cuts.push_back(h + 4 + (size_t)rcx::range(1, (int)room)); } } }
+    std::sort(cuts.begin(), cuts.end()); cuts.erase(std::unique(cuts.begin(), cuts.end()), cuts.end());
+    for (auto &p : vdrv::cut_at(w, cuts)) if (!p.empty()) c.ops.push_back(vdrv::Op{kind, p, 0});
+}
 static Conn gen_conn(int idx) {
-    Conn c; int k = rcx::range(0, 5); std::string tag = "c" + std::to_string(idx);
+    Conn c; int k = rcx::range(0, 10); std::string tag = "c" + std::to_string(idx);
     if (k <= 1) { hg::Opts o; o.max_pairs = 3; o.max_body = 60; hg::Exchange x = hg::gen_exchange(o); add_stream(c, x.req_wire(), '>'); add_stream(c, x.res_wire(), '<'); c.label = "generated_exchange"; }
     else if (k == 2) { std::string b = "bnd" + tag, body; int n = rcx::range(1, 3); for (int i = 0; i < n; i++) body += "--" + b + "\r\nContent-Disposition: form-data; name=\"f" + std::to_string(i) + "\"" + (rcx::coin() ? "; filename=\"" + tag + ".bin\"" : "") + "\r\n\r\n" + tag + std::string((size_t)rcx::range(0, 40), (char)('a' + idx)) + "\r\n"; body += "--" + b + "--\r\n";
         add_stream(c, "POST /up/" + tag + "?x=%41&y=" + tag + " HTTP/1.1\r\nHost: " + tag + ".example\r\nCookie: id=" + tag + "\r\nContent-Type: multipart/form-data; boundary=" + b + "\r\nContent-Length: " + std::to_string(body.size()) + "\r\n\r\n" + body, '>'); add_stream(c, "HTTP/1.1 200 OK\r\nContent-Length: 2\r\n\r\nok", '<'); c.label = "multipart"; }
     else if (k == 3) { std::string body = "a=" + tag + "&b=%u0041%zz+&c"; add_stream(c, "POST /f/" + tag + "/../x\\y?q=" + tag + " HTTP/1.1\r\nHost: " + tag + ".example:81\r\nAuthorization: Basic dXNlcjpwYXNz\r\nContent-Type: application/x-www-form-urlencoded\r\nContent-Length: " + std::to_string(body.size()) + "\r\n\r\n" + body, '>'); add_stream(c, "HTTP/1.1 404 Not Found\r\nTransfer-Encoding: chunked\r\n\r\n3\r\n" + std::string("abc") + "\r\n0\r\n\r\n", '<'); c.label = "urlencoded"; }
-    else if (k == 4) { std::string plain; int n = rcx::range(1, 30); for (int i = 0; i < n; i++) plain += tag + std::string((size_t)rcx::range(1, 200), (char)('a' + idx)); int w = rcx::range(0, 2); std::string body = zpack(plain, w == 0 ? 31 : w == 1 ? -15 : 15);
-        add_stream(c, "GET /z/" + tag + " HTTP/1.1\r\nHost: " + tag + ".example\r\n\r\n", '>'); add_stream(c, std::string("HTTP/1.1 200 OK\r\nContent-Encoding: ") + (w == 0 ? "gzip" : "deflate") + "\r\nContent-Length: " + std::to_string(body.size()) + "\r\n\r\n" + body, '<'); c.label = "coded_body"; }
+    else if (k == 4 || k == 6) { std::string plain; int n = rcx::range(1, 30); for (int i = 0; i < n; i++) plain += tag + std::string((size_t)rcx::range(1, 200), (char)('a' + idx)); int w = rcx::range(0, C19_HAVE_LZMA ? 4 : 2); if (w > 3) w = 3;
+        std::string body = w == 3 ? lzpack(plain, idx + rcx::range(0, 7)) : zpack(plain, w == 0 ? 31 : w == 1 ? -15 : 15); bool two = (w != 3) && rcx::chance(1, 4); if (two) body = zpack(body, 31);
+        add_stream(c, "GET /z/" + tag + " HTTP/1.1\r\nHost: " + tag + ".example\r\n\r\n", '>'); add_stream(c, std::string("HTTP/1.1 200 OK\r\nContent-Encoding: ") + (w == 3 ? "lzma" : w == 0 ? "gzip" : "deflate") + (two ? ", gzip" : "") + "\r\nContent-Length: " + std::to_string(body.size()) + "\r\n\r\n" + body, '<'); c.label = w == 3 ? "coded_body_lzma" : "coded_body"; }
+    else if (k == 7) { // chunked both ways with extensions and trailers, repeated and folded header fields
+        std::string rb, sb; int n = rcx::range(1, 5); for (int i = 0; i < n; i++) { std::string d = tag + std::string((size_t)rcx::range(1, 40), (char)('k' + idx)); char h[32]; snprintf(h, sizeof h, "%zx", d.size()); rb += std::string(h) + (rcx::coin() ? ";ext=" + tag : "") + "\r\n" + d + "\r\n"; sb += std::string(rcx::coin() ? "0" : "") + h + "\r\n" + d + "\r\n"; }
+        rb += "0\r\nX-Req-Trailer: " + tag + "\r\n\r\n"; sb += "0\r\nX-Res-Trailer: " + tag + "\r\n\r\n";
+        add_stream(c, "PUT /ch/" + tag + " HTTP/1.1\r\nHost: " + tag + ".example\r\nX-Fold: a\r\n " + tag + "\r\n\t" + tag + "\r\nX-Rep: 1\r\nX-Rep: " + tag + "\r\nTransfer-Encoding: chunked\r\n\r\n" + rb, '>');
+        add_stream(c, "HTTP/1.1 200 OK\r\nX-Fold: b\r\n " + tag + "\r\nSet-Cookie: a=" + tag + "\r\nSet-Cookie: b=" + tag + "\r\nTransfer-Encoding: chunked\r\n\r\n" + sb, '<'); c.label = "chunked_trailers_folding"; }
+    else if (k == 8) { // a pipeline of small transactions (transaction list, recycling, per-connection counters)
+        int n = rcx::range(4, 14); std::string rq, rs; for (int i = 0; i < n; i++) { rq += std::string(i % 3 == 2 ? "HEAD" : "GET") + " /p/" + tag + "/" + std::to_string(i) + " HTTP/1.1\r\nHost: " + tag + ".example\r\n\r\n"; rs += i % 3 == 2 ? "HTTP/1.1 200 OK\r\nContent-Length: 5\r\n\r\n" : i % 3 == 1 ? "HTTP/1.1 304 Not Modified\r\nETag: \"" + tag + "\"\r\n\r\n" : "HTTP/1.1 200 OK\r\nContent-Length: " + std::to_string(tag.size()) + "\r\n\r\n" + tag; }
+        add_stream(c, rq, '>'); add_stream(c, rs, '<'); c.label = "pipeline"; }
+    else if (k == 9) { // CONNECT: refused then HTTP, or accepted then tunnel bytes; Digest credentials; HTTP/0.9
+        bool ok = rcx::coin(); add_stream(c, "CONNECT " + tag + ".example:443 HTTP/1.1\r\nHost: " + tag + ".example:443\r\nProxy-Authorization: Basic dTpw\r\n\r\n" + (ok ? std::string("\x16\x03\x01") + tag + "\n" : "GET http://u:p@" + tag + ".example:81/a?b#c HTTP/1.1\r\nHost: " + tag + ".example:81\r\nAuthorization: Digest username=\"" + tag + "\", realm=\"r\", uri=\"/a\"\r\n\r\n"), '>');
+        add_stream(c, ok ? std::string("HTTP/1.1 200 Connection established\r\n\r\n\x16\x03") + tag : std::string("HTTP/1.1 407 Proxy Authentication Required\r\nContent-Length: 0\r\n\r\nHTTP/1.1 200 OK\r\nContent-Length: 2\r\n\r\n") + "ok", '<'); c.label = ok ? "connect_tunnel" : "connect_refused"; }
+    else if (k == 10) { // close-delimited response, request with invalid Content-Length, HTTP/1.0 without Host, long request line
+        add_stream(c, "POST /" + std::string((size_t)rcx::range(10, 2500), 'p') + "/" + tag + " HTTP/1.0\r\nContent-Length: " + std::to_string(tag.size()) + "\r\n\r\n" + tag, '>');
+        add_stream(c, "HTTP/1.0 200 OK\r\nContent-Type: text/plain\r\n\r\n" + std::string((size_t)rcx::range(0, 3000), (char)('A' + idx)) + tag, '<'); c.label = "close_delimited"; }
     else { static const char *WIDE[] = {"%c4%80", "%e2%82%ac", "%ef%bc%8f", "\xc5\x81", "%e2%88%95", "%ef%bc%a1", "%f0%9f%98%80", "%u0141", "%uff0f"}; std::string wide; int nw = rcx::range(1, 4); for (int i = 0; i < nw; i++) wide += std::string("/") + WIDE[rcx::range(0, 8)] + tag; // code points >= U+0100: the best-fit mapping is consulted
         add_stream(c, "GET /%c3%a9" + wide + "/" + tag + "/%u00e9?" + tag + "=\xc3\xa9 HTTP/1.1\r\nHost: " + tag + ".EXAMPLE.\r\nX-Long: " + std::string((size_t)rcx::range(10, 3000), 'x') + "\r\n folded\r\n\r\nGARBAGE " + tag + "\r\n", '>'); add_stream(c, "HTTP/1.1 200 OK\r\nContent-Length: 3\r\n\r\nabcHTTP/1.1 500\r\n\r\n", '<'); c.label = "utf8_bestfit_malformed"; }
     c.ops.push_back(vdrv::Op{'C', "", 0});
